@@ -179,107 +179,107 @@ LEVELS = {
         text='Machine-checked Coq theorems (induction over all reachable states of the generic event-system model, any action behaviour, '
              'any tie-break weights): sorted queue, minimum dispatched, monotone clock, past scheduling rejected, at-most-once, run post-condition; '
              'model tied to /repo by regenerated fact tables (kernel-checked equalities) and lock-step comparison of the full environment state after every call.',
-        design_ref='DESIGN.md section 8, C01', technique='Coq proof (invariant by induction over reachability) + lock-step correspondence with the real Environment',
+        design_ref='DESIGN.md sections 0.3 and 8, C01', technique='Coq proof (invariant by induction over reachability) + lock-step correspondence with the real Environment',
         note='Trusted: Coq kernel, pyfacts.py, extraction (ExtrOcamlBasic) + OCaml driver, Python harness. Not covered: re-entrant step()/run() from inside actions, NaN/off-grid times.'),
     'C07': dict(
         text='Machine-checked Coq theorems characterising pause/unpause/cancel on an arbitrary environment state (exact queue/paused contents, remaining delay equation, '
              'idempotence, cancelled-never-runs over all continuations); tied to /repo by fact tables and lock-step correspondence.',
-        design_ref='DESIGN.md section 8, C07', technique='Coq proof (operation characterisations + invariant over all continuations) + lock-step correspondence',
+        design_ref='DESIGN.md sections 0.3 and 8, C07', technique='Coq proof (operation characterisations + invariant over all continuations) + lock-step correspondence',
         note='Trusted: as C01. asset_id=None no-op calls not modelled.'),
     'C09': dict(
         text='Machine-checked Coq theorems on the model of resource_manager.py: pool invariant (usage = sum of outstanding reservations >= 0, capacity >= 0) '
              'preserved by every operation, operation sequence and availability check; exact specifications of reserve / release / merge / add; '
              'an operation that raises changes nothing; no over-commitment without an explicit capacity reduction. Three clauses were false of the original code '
              '(coq/Findings/C09_refuted.v) and were repaired by fix: commits.',
-        design_ref='DESIGN.md section 8, C09', technique='Coq proof (state-machine invariant + operation specifications) + lock-step correspondence with ResourceManager',
+        design_ref='DESIGN.md sections 0.3 and 8, C09', technique='Coq proof (state-machine invariant + operation specifications) + lock-step correspondence with ResourceManager',
         note='Trusted: Coq kernel, pyfacts.py, extraction + OCaml driver, Python harness. Names are integers, amounts on the 1/8 grid.'),
     'C10': dict(
         text='Machine-checked Coq theorems: the availability scan invokes a callback only when the request fits at that moment, never twice for one registration, '
              'in registration order, and leaves nothing feasible waiting unless a further check is scheduled now; lifted to the manager+queue system: '
              'invariant preserved by every event/external call, so no feasible request waits when the clock advances.',
-        design_ref='DESIGN.md section 8, C10', technique='Coq proof (loop invariants of the scan + system invariant over the event queue) + lock-step correspondence',
+        design_ref='DESIGN.md sections 0.3 and 8, C10', technique='Coq proof (loop invariants of the scan + system invariant over the event queue) + lock-step correspondence',
         note='Trusted: Coq kernel, pyfacts.py, extraction + OCaml driver, Python harness. Callback bodies range over all scripted operation lists.'),
     'C12': dict(
         text='Machine-checked Coq theorems: create_work_order returns exactly non-duplication; the scan starts orders in request order skipping only unfit/busy ones; '
              'capacity in use = sum of orders in progress <= capacity; one order per target; nothing startable is left waiting after any operation; '
              'cost once, FINISH_WORK at start+duration, hooks once per event; system invariant: exactly one live event per order in progress.',
-        design_ref='DESIGN.md section 8, C12', technique='Coq proof (state-machine invariant + system invariant over the event queue) + lock-step correspondence with Maintainer',
+        design_ref='DESIGN.md sections 0.3 and 8, C12', technique='Coq proof (state-machine invariant + system invariant over the event queue) + lock-step correspondence with Maintainer',
         note='Trusted: Coq kernel, pyfacts.py, extraction + OCaml driver, Python harness.'),
     'C18': dict(
         text='Machine-checked Coq theorems: registration dictionary semantics; at every state change exactly one action call per registered object in registration order with the right arguments; '
              'k-th change at t0 + sum of the first k durations with state k-1 (mod n when cyclic), period = total duration, non-cyclic schedules stop in their last state; '
              'system invariant over the event queue (one pending transition at the prescribed time).',
-        design_ref='DESIGN.md section 8, C18', technique='Coq proof (induction over state changes + system invariant) + lock-step correspondence with ActionScheduler',
+        design_ref='DESIGN.md sections 0.3 and 8, C18', technique='Coq proof (induction over state changes + system invariant) + lock-step correspondence with ActionScheduler',
         note='Trusted: Coq kernel, pyfacts.py, extraction + OCaml driver, Python harness.'),
     'C19': dict(
         text='Machine-checked Coq theorems: every probe series and the time series hold exactly the most recent min(count, capacity) entries and stay aligned; '
              'each measurement stores the probed values and calls every callback once in registration order; output-part sensor measures part 1, n+2, 2n+3, ...; '
              'Cms.add_sensor idempotent; one pending periodic measurement, the k-th due k intervals after the start. The alignment clause was false of the original code '
              '(coq/Findings/C19_refuted.v), repaired by a fix: commit.',
-        design_ref='DESIGN.md section 8, C19', technique='Coq proof (suffix invariant, counter arithmetic, system invariant) + lock-step correspondence with the sensor classes',
+        design_ref='DESIGN.md sections 0.3 and 8, C19', technique='Coq proof (suffix invariant, counter arithmetic, system invariant) + lock-step correspondence with the sensor classes',
         note='Trusted: Coq kernel, pyfacts.py, extraction + OCaml driver, Python harness.'),
     'C02': dict(
         text='PARTIAL. Machine-checked: no single-slot device ever holds an input and an output part at once (every reachable state); every device change is a guarded transformer '
              '(R_exec_fact): acceptance needs both slots empty, finishing moves that very part, identities never rewritten; a failure loses exactly the input part. '
              'Not yet a theorem: the global census equation across devices (hand-over is a two-device step); it is decided on the implementation side by the census monitor '
              'and by lock-step agreement of every device content after every event.',
-        design_ref='DESIGN.md section 8, C02', technique='Coq proof (per-device invariants over guarded transformers, induction over events) + lock-step correspondence + census monitor',
+        design_ref='DESIGN.md sections 0.3 and 8, C02', technique='Coq proof (per-device invariants over guarded transformers, induction over events) + lock-step correspondence + census monitor',
         note='Partial: census equation validated, not proved. Trusted: Coq kernel, pyfacts.py, extraction + OCaml driver, Python harness.'),
     'C05': dict(
         text='Machine-checked Coq theorems: buffer level = number stored <= capacity, entry times sorted (FIFO), a part leaves only from the head and only after its minimum delay, '
              'for every reachable state of every layout/event order; tied by fact tables and lock-step.',
-        design_ref='DESIGN.md section 8, C05', technique='Coq proof (buffer invariant, stable under all guarded transformers; FIFO relation over every event) + lock-step correspondence with Buffer',
+        design_ref='DESIGN.md sections 0.3 and 8, C05', technique='Coq proof (buffer invariant, stable under all guarded transformers; FIFO relation over every event) + lock-step correspondence with Buffer',
         note='Trusted: Coq kernel, pyfacts.py, extraction + OCaml driver, Python harness.'),
     'C13': dict(
         text='Machine-checked Coq theorems on the processor state machine: shut-down refuses/keeps, failure effect, idempotent shutdown/restore, clock invariant, '
              'uptime/utilisation unchanged by event actions and growing exactly with operational / processing time. One clause was false of the original code (C13_refuted.v), repaired (fix: f79706b).',
-        design_ref='DESIGN.md section 8, C13', technique='Coq proof (state-machine lemmas + two-sided accounting invariant over all events and time advances) + lock-step correspondence with PartProcessor',
+        design_ref='DESIGN.md sections 0.3 and 8, C13', technique='Coq proof (state-machine lemmas + two-sided accounting invariant over all events and time advances) + lock-step correspondence with PartProcessor',
         note='Trusted: Coq kernel, pyfacts.py, extraction + OCaml driver, Python harness. Work-order window relies on C12 theorems.'),
     'C16': dict(
         text='Machine-checked Coq theorems: value added exactly once per acceptance, generator value on new parts, sink accumulates received values, maintenance cost charged once at start; tied by lock-step on all values.',
-        design_ref='DESIGN.md section 8, C16', technique='Coq proof (value lemmas over guarded transformers) + lock-step correspondence',
+        design_ref='DESIGN.md sections 0.3 and 8, C16', technique='Coq proof (value lemmas over guarded transformers) + lock-step correspondence',
         note='Partial for end-to-end sums across a whole route (follows from per-acceptance lemmas + lock-step; not a single theorem).'),
     'C17': dict(
         text='Machine-checked Coq theorems: batch invariant for every reachable state (in-progress batch below the size, emitted batches full and in arrival order; unbatching in order).',
-        design_ref='DESIGN.md section 8, C17', technique='Coq proof (batcher invariant stable under all guarded transformers) + lock-step correspondence with PartBatcher',
+        design_ref='DESIGN.md sections 0.3 and 8, C17', technique='Coq proof (batcher invariant stable under all guarded transformers) + lock-step correspondence with PartBatcher',
         note='Trusted: Coq kernel, pyfacts.py, extraction + OCaml driver, Python harness.'),
     'C03': dict(
         text='PARTIAL. Machine-checked: the local wake-up rules of the floor model (waiting flag after a refusal, attempt scheduled at the same instant on every signal, signals after restore/unblock/budget raise; availability checks after resource changes via C10). The global no-lost-wake-up statement at clock advances and run termination are decided by the liveness monitor on the implementation plus lock-step.',
-        design_ref='DESIGN.md section 8, C03', technique='Coq proof (wake-up lemmas over the floor model) + lock-step correspondence + liveness monitor at every clock advance',
+        design_ref='DESIGN.md sections 0.3 and 8, C03', technique='Coq proof (wake-up lemmas over the floor model) + lock-step correspondence + liveness monitor at every clock advance',
         note='Partial: global liveness not a theorem.'),
     'C06': dict(
         text='PARTIAL. Machine-checked: timer = accept time + max(0, cycle + offset) under the device id, offset one-shot, FINISH requires exactly the part in process on an operational device, shutdown pauses / failure cancels (also during a shutdown: repaired defect D4), resumed events keep remaining delay and cancelled events never run (C07). The whole-run exact-timing statement is decided by the cycle-time monitor + lock-step.',
-        design_ref='DESIGN.md section 8, C06', technique='Coq proof (timer and interruption lemmas + C07 event-queue theorems) + lock-step correspondence + cycle-time monitor',
+        design_ref='DESIGN.md sections 0.3 and 8, C06', technique='Coq proof (timer and interruption lemmas + C07 event-queue theorems) + lock-step correspondence + cycle-time monitor',
         note='Partial: composition over a run not a single theorem.'),
     'C08': dict(
         text='PARTIAL. Machine-checked: offers go to a permutation of the configured downstream list sorted by idle-since time; gates/blocked inputs refuse without any change; accepted part history = offered history ++ [device]; identities never rewritten. Whole-route statements decided by the routing monitor + lock-step.',
-        design_ref='DESIGN.md section 8, C08', technique='Coq proof (routing lemmas: permutation + sortedness of the offer order, refusal guards) + lock-step correspondence + routing monitor',
+        design_ref='DESIGN.md sections 0.3 and 8, C08', technique='Coq proof (routing lemmas: permutation + sortedness of the offer order, refusal guards) + lock-step correspondence + routing monitor',
         note='Partial: whole-route history and group-path matching not theorems.'),
     'C11': dict(
         text='Machine-checked world-level invariant (pools, reservation objects and device holdings agree) preserved by every world step, event, call and system step; exact holdings; no sharing; acceptance needs the reservation; failure releases; shutdown keeps. PARTIAL for the clause about idle processors at clock advances (event-queue level), decided by the monitor.',
-        design_ref='DESIGN.md section 8, C11', technique='Coq proof (world-level invariant over labelled world steps, using the C09 operation specifications) + lock-step correspondence + resource monitor',
+        design_ref='DESIGN.md sections 0.3 and 8, C11', technique='Coq proof (world-level invariant over labelled world steps, using the C09 operation specifications) + lock-step correspondence + resource monitor',
         note='Initial-state establishment proved from a simple predicate (nothing reserved yet); decode => that predicate validated by lock-step.'),
     'C15': dict(
         text='PARTIAL. Machine-checked: the record list only grows during an action; receive/level/failure/resource records carry the state of their moment; level = stored parts. Exactly-one-record-per-occurrence and counters = record counts decided by the record monitor and lock-step over the full data log after every event.',
-        design_ref='DESIGN.md section 8, C15', technique='Coq proof (append-only log over all world steps, record payload lemmas) + lock-step correspondence on the full data log + record monitor',
+        design_ref='DESIGN.md sections 0.3 and 8, C15', technique='Coq proof (append-only log over all world steps, record payload lemmas) + lock-step correspondence on the full data log + record monitor',
         note='Partial: counting clauses not theorems.'),
     'C20': dict(
         text='Machine-checked Coq theorems: registry invariant for every operation sequence (registered with the most recently created system only, initialised at most once, first simulate initialises every registered asset exactly once, '
              'continuing never re-initialises, only the latest system simulates, look-up = filter by all given criteria); late creation equals early creation operation for operation for every class whose creation ends with the registration, '
              'and that condition is kernel-checked on the class IR regenerated from /repo on every run. The original code violated it (C20_refuted.v), repaired by fix: 5b382da.',
-        design_ref='DESIGN.md section 8, C20', technique='Coq proof (registry state-machine invariant; trace equality of late vs early creation over the regenerated class IR) + lock-step correspondence with System/Asset + twin-behaviour monitor',
+        design_ref='DESIGN.md sections 0.3 and 8, C20', technique='Coq proof (registry state-machine invariant; trace equality of late vs early creation over the regenerated class IR) + lock-step correspondence with System/Asset + twin-behaviour monitor',
         note='Trusted: Coq kernel, pyfacts.py (statement IR of constructors/initialisers), extraction + OCaml driver, Python harness. Behaviour inside initialize() is abstracted to its operation sequence; the twin monitor compares real behaviour.'),
     'C14': dict(
         text='PARTIAL. Machine-checked on the event-system model: the evolution depends on randomness only through the tie-break weights (same weights, same run); order-preserving renumbering of asset ids commutes with '
              'sorted insertion, scheduling, pausing, resuming and cancelling; the marker event of run() changes only clock and terminated flag; results list in index order. The end-to-end split equality and the '
              'multi-process clause are decided by the reproducibility monitor on the implementation (again / seeded / split / multi-process variants) together with the lock-step against the pure model.',
-        design_ref='DESIGN.md section 8, C14', technique='Coq proof (extensionality in the weight source, renaming equivariance of the queue operations, marker lemmas) + lock-step correspondence at varying id offsets + differential reruns of the implementation',
+        design_ref='DESIGN.md sections 0.3 and 8, C14', technique='Coq proof (extensionality in the weight source, renaming equivariance of the queue operations, marker lemmas) + lock-step correspondence at varying id offsets + differential reruns of the implementation',
         note='Partial: run-split equality and process-level behaviour are not theorems (a Coq model cannot exhibit worker processes).'),
     'C04': dict(
         text='PARTIAL. Machine-checked: the reference recurrence (Model/Line.v) is the tight solution of the service / order / blocking constraints and is monotone in the part number and along the line. '
              'Not a theorem: that the floor model follows the recurrence (whole-run timing). Decided on every run by three-way agreement on generated serial lines: implementation = floor model in lock-step, '
              'and recorded entry times = the recurrence evaluated by the extracted Coq function = the monitor\'s independent computation.',
-        design_ref='DESIGN.md section 8, C04', technique='Coq proof (characterisation of the recurrence) + lock-step correspondence + differential check of recorded entry times against the Coq-evaluated recurrence',
+        design_ref='DESIGN.md sections 0.3 and 8, C04', technique='Coq proof (characterisation of the recurrence) + lock-step correspondence + differential check of recorded entry times against the Coq-evaluated recurrence',
         note='Partial: the equality simulator = recurrence is validated (differential), not proved.'),
 }
 
